@@ -27,6 +27,81 @@ def field_name(rng, used):
     raise RuntimeError('no name')
 
 
+# --------------------------------------------------------------------------- arbitrary identifiers (NONE key transform)
+# Field names as people write them when they are NOT canonical snake_case: camelCase, PascalCase, ALLCAPS, single letters in
+# either case, leading / trailing / doubled underscores, digits, non-ASCII letters - and, the point of the dimension, several
+# names of one class that are different identifiers but the same text under some folding (letter case, '_' dropped):
+# `t` / `T`, `id` / `ID` / `Id`, `userName` / `user_name` / `username`, `x1` / `X1` / `x_1`.
+IDENT_STEMS = ['t', 'x', 'n', 'id', 'ab', 'url', 'name', 'val', 'key', 'user', 'size', 'zone', 'data', 'é', 'ß', 'k', 'straße', 'i']
+_RESERVED = None
+
+
+def _reserved():
+    global _RESERVED
+    if _RESERVED is None:
+        import keyword
+        import builtins
+        import typing
+        _RESERVED = set(keyword.kwlist) | set(keyword.softkwlist) | set(dir(builtins)) | set(typing.__all__) | {
+            'field', 'dataclass', 'date', 'time', 'datetime', 'timedelta', 'Decimal', 'Path', 'UUID', 'Enum', 'self', 'cls'}
+    return _RESERVED
+
+
+def _spell(rng, words):
+    """one spelling of a list of lower-case words as an identifier"""
+    style = rng.choice(['snake', 'camel', 'pascal', 'caps', 'caps_snake', 'joined', 'Title_Snake', 'dbl', 'mixed'])
+    if style == 'snake':
+        s = '_'.join(words)
+    elif style == 'camel':
+        s = words[0] + ''.join(w[:1].upper() + w[1:] for w in words[1:])
+    elif style == 'pascal':
+        s = ''.join(w[:1].upper() + w[1:] for w in words)
+    elif style == 'caps':
+        s = ''.join(words).upper()
+    elif style == 'caps_snake':
+        s = '_'.join(words).upper()
+    elif style == 'joined':
+        s = ''.join(words)
+    elif style == 'Title_Snake':
+        s = '_'.join(w[:1].upper() + w[1:] for w in words)
+    elif style == 'dbl':
+        s = '__'.join(words)
+    else:
+        s = '_'.join(w.upper() if rng.random() < 0.5 else w for w in words)
+    r = rng.random()
+    if r < 0.12:
+        s = '_' + s
+    elif r < 0.22:
+        s = s + '_'
+    elif r < 0.34:
+        s = s + rng.choice(['1', '_1', '2'])
+    return s
+
+
+def _respell(rng, name):
+    """another identifier that is the same text as `name` under a folding: letter case, underscores"""
+    f = rng.choice([str.lower, str.upper, str.swapcase, str.capitalize, str.title,
+                    lambda s: s[:1].swapcase() + s[1:], lambda s: s[:-1] + s[-1:].swapcase(),
+                    lambda s: s.replace('_', ''), lambda s: s.replace('_', '__'),
+                    lambda s: '_'.join(s) if len(s) <= 3 else s.replace('_', '', 1),
+                    lambda s: ''.join(c.upper() if rng.random() < 0.5 else c.lower() for c in s)])
+    return f(name)
+
+
+def any_identifier(rng, used, collide=0.4, forbidden=()):
+    """a field name drawn from all identifiers (see above); with probability `collide` a re-spelling of a name already in `used`"""
+    for _ in range(200):
+        if used and rng.random() < collide:
+            name = _respell(rng, rng.choice(sorted(used)))
+        else:
+            name = _spell(rng, [rng.choice(IDENT_STEMS) for _ in range(rng.choice([1, 1, 1, 2, 2, 3]))])
+        if (name.isidentifier() and name not in used and name not in _reserved() and name not in forbidden
+                and not name.startswith('__') and not name.strip('_') == ''):
+            used.add(name)
+            return name
+    raise RuntimeError('no identifier')
+
+
 LEAVES_DEFAULT = ['int', 'float', 'str', 'bool', 'decimal', 'path', 'uuid', 'date', 'time', 'datetime', 'timedelta', 'any']
 
 
@@ -450,6 +525,10 @@ def gen_value(rng, t, built, size=3):
         return gen_value(rng, a[0], built, size)
     if k == 'literal':
         return rng.choice(t['vs'])
+    if k == 'selfref':
+        return gen_instance(rng, built.infos[t['name']], built, size - 1)
+    if k == 'optional' and a[0]['k'] == 'selfref' and size <= 0:
+        return None          # the chain of self references ends
     if k == 'optional':
         if t.get('falsy') and rng.random() < t['falsy']:
             # the boundary between "no value" and a value: what is falsy / empty and still a value of the wrapped type
@@ -461,6 +540,8 @@ def gen_value(rng, t, built, size=3):
         m = rng.choice(a)
         return gen_value(rng, m, built, size)
     n = rng.choice([0, 1, 2, size])
+    if size < -6:
+        n = 0                # only reached through chains of self references
     if k == 'list':
         return [gen_value(rng, a[0], built, size - 1) for _ in range(n)]
     if k == 'deque':
